@@ -60,6 +60,12 @@ CHECKS = {
         "Trusts PRINT of an Integer (validated by C11) and the harness build profile (overflow checks off, like the shipped binary). Random part: absence only up to sampling.",
         "6 C08",
     ),
+    "C16": (
+        "metamorphic testing over spellings: proptest-generated programs re-spelled (letter case, glued keywords, ?, GO TO/GO SUB, =< =>, blanks inside relational operators, extra blanks, optional LET, REM/') must parse to the generator's tree, list identically (tight variants) and run identically",
+        "Exploration with a metamorphic oracle: each program is rendered in 4 (thorough 8) random spellings produced from the harness's token stream; for every variant line the parser's column-free AST must equal the tree the text was generated from, tight variants must LIST exactly like the canonical program, and RUN transcripts and final variables must be equal.",
+        "Blank-dropping uses a conservative may_glue predicate built on the harness's own reserved-word list; a wrong entry there would surface as a reported mismatch, never as silence.",
+        "6 C16",
+    ),
     "C20": (
         "metamorphic testing: proptest-generated programs under layout transformations (renumbering, inserted remark/unreachable lines, empty statements, line splitting) must behave identically up to reported line numbers; direct lines independent of the program in memory; direct line vs one-line program",
         "Exploration with a metamorphic oracle: each case runs the original and the transformed program (and a direct line with three different programs in memory) and compares transcripts and final variables exactly after mapping line numbers back; the transformations move the code address of jump targets, WHILE/WEND pairs, DATA and FOR/GOSUB return points without changing meaning.",
